@@ -105,7 +105,7 @@ func afApply(p *packet.Packet, op Val) (err error, panicked bool, bad bool) {
 	af := (*packet.AdaptationField)(p)
 	code := op.L[0].Int()
 	arg := op.L[1]
-	if code <= 10 && arg.K != 0 || code > 10 && arg.K != 1 {
+	if (code <= 10 || code == 14) && arg.K != 0 || code > 10 && code != 14 && arg.K != 1 {
 		return nil, false, true
 	}
 	flag := func() bool { return arg.I.Sign() != 0 }
@@ -143,6 +143,8 @@ func afApply(p *packet.Packet, op Val) (err error, panicked bool, bad bool) {
 		var src packet.Packet
 		copy(src[:], arg.B)
 		err = p.SetAdaptationField((*packet.AdaptationField)(&src))
+	case 14: // the packet itself as the source: exercises the aliasing of copy()
+		err = p.SetAdaptationField((*packet.AdaptationField)(p))
 	default:
 		return nil, false, true
 	}
